@@ -105,8 +105,10 @@ def patched(obj, name, wrapper_factory, static=False):
             delattr(obj, name)
 
 
-def trace_merge(d):
-    """d: dict key->amplitude.  Returns (lines, gate)."""
+def trace_merge(d, make=None):
+    """d: dict key->amplitude.  Returns (lines, gate).  `make` (optional, all three trace_* functions): a callable
+    returning the gate, used instead of the plain constructor call so that other entry forms (static `initialize`,
+    copies, partial option dictionaries ...) are observed through the same recording wrappers."""
     from qclib.state_preparation import merge as M
     cls = M.MergeInitialize
     lines = []
@@ -147,14 +149,14 @@ def trace_merge(d):
     with patched(cls, "_select_strings", w_select), \
             patched(cls, "_update_state_dict_according_to_operation", w_update, static=True), \
             patched(cls, "_compute_angles", w_angles, static=True):
-        gate = cls(dict(d))
+        gate = cls(dict(d)) if make is None else make()
         circ = gate.definition
     lines.append("gates ;")
     lines += flat(circ)
     return lines, gate
 
 
-def trace_pivot(d, aux):
+def trace_pivot(d, aux, make=None):
     from qclib.state_preparation import pivot as P
     cls = P.PivotInitialize
     lines = []
@@ -170,14 +172,14 @@ def trace_pivot(d, aux):
         return f
 
     with patched(cls, "_pivoting", w_pivoting):
-        gate = cls(dict(d), opt_params={"aux": aux})
+        gate = cls(dict(d), opt_params={"aux": aux}) if make is None else make()
         circ = gate.definition
     lines.append("gates ;")
     lines += flat(circ)
     return lines, gate
 
 
-def trace_cvo(d, aux, method):
+def trace_cvo(d, aux, method, make=None):
     from qclib.state_preparation import cvoqram as C
     cls = C.CvoqramInitialize
     lines = []
@@ -199,7 +201,7 @@ def trace_cvo(d, aux, method):
     LAST["cvo_branches"] = []
 
     with patched(C, "_compute_matrix_angles", w_angles):
-        gate = cls(dict(d), opt_params={"with_aux": aux, "mcg_method": method})
+        gate = cls(dict(d), opt_params={"with_aux": aux, "mcg_method": method}) if make is None else make()
         circ = gate.definition
     lines.append("gates ;")
     lines += flat(circ)
